@@ -5,7 +5,7 @@ from verifkit.core import *
 
 THEOREMS = [
     "Cog.Sem.C01_codec_roundtrip_partial", "Cog.Sem.C01_object_roundtrip_partial",
-    "Cog.Sem.C01_decode_defined_partial", "Cog.Sem.C01_counterexample_empty_optional_array",
+    "Cog.Sem.C01_decode_defined_partial", "Cog.Sem.C01_codec_roundtrip_any_fuel_partial", "Cog.Sem.den_mono_le", "Cog.Sem.C01_counterexample_empty_optional_array",
     "Cog.Sem.C01_counterexample_unknown_discriminator", "Cog.Sem.roundtrip_core",
 ]
 
